@@ -145,6 +145,7 @@ func (s *session) attempt(of *offer, transport string) {
 	s.judge(of, out, hb, a)
 	s.checkEnumeration("enumerate", s.b.S, !out.accepted)
 	s.checkListenersNoExcess()
+	s.probeCache(of)
 }
 
 func (s *session) doPut(of *offer, transport string, out *outcome) {
